@@ -46,6 +46,7 @@ Verdict(c) ==
       ok |-> IF fs = {} THEN "1" ELSE "0",
       fails |-> SetToSeq({[c |-> f.c, at |-> f.at, known |-> KnownKey(c, f)] : f \in fs}),
       ieq |-> IF IEq(c) THEN "1" ELSE "0",
+      sites |-> IF c.err # "" THEN 0 ELSE CountSites(c.pat, c.plus, c.in, "Node"),
       err |-> c.err]
 
 Init == l = 1 /\ verdicts = <<>>
